@@ -73,6 +73,7 @@ func TestVerifC19(t *testing.T) {
 	// the agent's own environment may already hold a variable of that name: hooks must still get the real store path
 	os.Setenv("WHAWTY_AUTH_STORE", "/inherited/from/the/environment") //nolint:errcheck
 	defer os.Unsetenv("WHAWTY_AUTH_STORE")                            //nolint:errcheck
+	cwd0, _ := os.Getwd()
 	R := vr.New("C19", "hooks", "(A) hooks directories with every combination of {hidden, exec bit, type file / symlink-to-exec / symlink-to-noexec / dangling symlink / directory / fifo, directory world-writable (also made world-writable after start)}: after one notification exactly the eligible files run, with argv [update] and the store path in WHAWTY_AUTH_STORE (scripts log themselves); (B) notification timing patterns (0,1,2,3,40 per rate-limit interval, pairs just before / after the timer, a second change arriving while a round is being started) against an in-package HooksCaller with a 120-250 ms rate limit, judged on the sequence-numbered event log: every send is followed by a start of every eligible hook, a round only directly after notify(pending=0) or timer(pending>1), at most two rounds between two timer events, the timer never early; (C) agent wiring: exactly one notification per successful add/update/set-admin and per remove, none for failed operations, store path updated on reload; (D) a never-ending hook does not delay requests (thorough: it is killed not earlier than 60 s after its start). Non-trivial: every pattern / directory layout; distinct by layout or (pattern, observed event sequence)")
 	defer R.Write()
 	rng := R.Rand("c19")
@@ -83,6 +84,10 @@ func TestVerifC19(t *testing.T) {
 	c19Deaf(R, rng)
 	c19Wiring(R, rng)
 	c19Hanging(R, rng)
+	// starting hooks must leave the agent process itself alone: same working directory as before
+	if cwd1, _ := os.Getwd(); cwd1 != cwd0 {
+		R.Violate("c19:agent-working-directory-changed-by-hook-run", fmt.Sprintf("the process was started in %s and is now in %s", cwd0, cwd1), "cwd", nil)
+	}
 }
 
 // c19Deaf: the hooks directory is unusable exactly when a coalesced (trailing) round is due; after it has been
